@@ -487,6 +487,7 @@ def apply_scale(script, S):
             o["range"] = sc(o["range"])
             if isinstance(o["bins"], list):
                 o["bins"] = sc(o["bins"])
+            o.update(hist_sane(o))       # (a zero-width range is widened by an ABSOLUTE 0.5 on each side)
     script["settings"]["xrange"] = sc(script["settings"]["xrange"])
     script["scale"] = S
 
